@@ -147,7 +147,7 @@ def its_of(now):
 
 
 # ---------------------------------------------------------------------------------------------- U2 attendance
-def _attendance(ctx, tag, with_filter, with_order, fixed_type=None):
+def _attendance(ctx, tag, with_filter, with_order, fixed_type=None, reentrant=False):
     h = Ldm(body=body, fixed_type=fixed_type)
     for r in h.recs:
         r.__class__ = QRec
@@ -161,6 +161,14 @@ def _attendance(ctx, tag, with_filter, with_order, fixed_type=None):
     a = Sub(h, "subA", h.cons[0], (2,), flt, order)           # consumer 1 subscribed to CAMs
     b = Sub(h, "subB", h.cons[1], (1,), None, None)            # consumer 2 subscribed to DENMs
     I.assumptions.append(h.cons[0] != h.cons[1])
+    dereg = z3.Bool("subA_callback_deregisters_consumer2") if reentrant else None
+    if reentrant:
+        # a notification callback may call back into the LDM (IF.LDM.4 is what a consumer holds): here the callback of the first
+        # subscription deregisters the consumer of the second one through the real LDMService.del_data_consumer_its_aid
+        def cb_a(it, args, k, pc):
+            a.calls.append((pc, args[0]))
+            it.call_function(LDMService.del_data_consumer_its_aid, [h.service, h.cons[1]], pc=z3.And(it._lb(pc), dereg))
+        I.stubs[a.cb] = cb_a
     h.subscriptions.items.extend([(TRUE, a.info), (TRUE, b.info)])
     for s in (a, b):
         h.last_checked.log.append((s.has_last, s.info, Obj(LC.TimestampIts, dict(timestamp_its=s.last)), False))
@@ -168,6 +176,8 @@ def _attendance(ctx, tag, with_filter, with_order, fixed_type=None):
     exc = cond_or(c for c, _ in I.raises)
     vars_ = h.vars()
     vars_["ref"] = ref
+    if reentrant:
+        vars_["subA_callback_deregisters_consumer2"] = dereg
     for s in (a, b):
         vars_.update(s.vars())
     reads = h.clock.reads
@@ -193,7 +203,11 @@ def _attendance(ctx, tag, with_filter, with_order, fixed_type=None):
             rq = LC.SubscribeDataobjectsReq(vals["consumer1" if s is a else "consumer2"], ty, None, fl,
                                             LC.TimestampIts(vals[f"{t}_notify_ms"]) if vals[f"{t}_has_notify_time"] else None,
                                             vals[f"{t}_multiplicity"] if vals[f"{t}_has_multiplicity"] else None, od)
-            info = LC.SubscriptionInfo(rq, (lambda resp, t=t: got[t].append(resp)))
+            def cb_real(resp, t=t):
+                got[t].append(resp)
+                if reentrant and t == "subA" and vals["subA_callback_deregisters_consumer2"]:
+                    svc.del_data_consumer_its_aid(vals["consumer2"])
+            info = LC.SubscriptionInfo(rq, cb_real)
             subs[t] = info
             svc.subscriptions.append(info)
             if vals[f"{t}_has_last_notification"]:
@@ -248,9 +262,17 @@ def _attendance(ctx, tag, with_filter, with_order, fixed_type=None):
     ctx.witness(f"{tag}-reach-notified", I, z3.And(z3.Not(exc), cond_or(c for c, _ in a.calls), h.present[0], h.present[1]), vars=vars_)
     ctx.prove(f"{tag}-no-exception", I, exc, vars=vars_, replay=replay)
     now_lo, now_hi = its_of(reads[0][1]), its_of(reads[-1][1])
+    if reentrant:
+        ctx.witness(f"{tag}-reach-deregistered-from-a-callback", I,
+                    z3.And(z3.Not(exc), dereg, cond_or(c for c, _ in a.calls), h.registered("consumer", b.app, post=False),
+                           z3.Not(h.registered("consumer", b.app, post=True)), n_match(b) >= 1, z3.Not(b.has_notify), z3.Not(b.has_mult)),
+                    vars=vars_, validate=lambda v: not replay(v)[0])
     for s in (a, b):
         called = cond_or(c for c, _ in s.calls)
         reg = h.registered("consumer", s.app, post=False)
+        if reentrant and s is b:
+            # registered when its turn comes: the first subscription's callback ran before (subscriptions are attended in stored order)
+            reg = z3.And(reg, z3.Not(z3.And(dereg, cond_or(c for c, _ in a.calls))))
         nm = n_match(s)
         enough = z3.And(nm >= 1, z3.Or(z3.Not(s.has_mult), nm >= s.mult))
         # interval: never notified before -> the subscription time is 'now' (first check) so only a zero interval passes
@@ -311,6 +333,15 @@ def _attendance(ctx, tag, with_filter, with_order, fixed_type=None):
 @vc("C14", "U2-attendance-plain")
 def attendance_plain(ctx):
     _attendance(ctx, "plain", False, False)
+
+
+@vc("C14", "U2-attendance-callback-deregisters-a-consumer")
+def attendance_reentrant(ctx):
+    """the notification callback of the first subscription deregisters the consumer of the second one (a call back into the LDM from
+    inside the attendance pass): the second one is not notified by this pass any more"""
+    _attendance(ctx, "reentrant", False, False, reentrant=True)
+    ctx.bound("re-entrancy: one callback (of the subscription stored first) that may deregister the other consumer; callbacks that subscribe / "
+              "unsubscribe / add data from inside the pass are outside the claim")
 
 
 @vc("C14", "U2-attendance-filter-order")
